@@ -283,7 +283,27 @@ func (conn *Conn) recv() {
 			})
 		}
 	}
+	// The queue's Close runs the tasks that are still queued in this goroutine,
+	// concurrently with (and ahead of) the one its worker is still executing.
+	// Let the worker finish everything first, in order.
+	idle := make(chan struct{})
+	pipeline.Schedule(func() { close(idle) })
+	<-idle
 	pipeline.Close()
+	// The same holds for the completion queue and the stream queue, which the
+	// decode tasks above have filled and which are closed below: let their
+	// workers deliver everything that was received, in order, before the calls
+	// without a response are failed and before the queues are closed.
+	if conn.readSched != nil {
+		idle := make(chan struct{})
+		conn.readSched.Schedule(func() { close(idle) })
+		<-idle
+	}
+	if conn.readStream != nil {
+		idle := make(chan struct{})
+		conn.readStream.Schedule(func() { close(idle) })
+		<-idle
+	}
 	conn.mutex.Lock()
 	conn.shutdown = true
 	if err == io.EOF {
